@@ -23,7 +23,7 @@ from ..sym import Explorer, N, is_const, show, walk
 from ..wrules import model, w1
 from .c12 import LOWER, contains_call
 
-TECHNIQUE = "static analysis: must-pass-through (lower-casing) and string-shape tags on reconstructed expressions; operator-tree match of the entry-word decode; binrw layout/divisor rules per index type; who-may-write and freeze facts for the memo; derives-from obligations on the lookup chain"
+TECHNIQUE = "static analysis: must-pass-through (lower-casing) and string-shape tags on reconstructed expressions; operator-tree match of the entry-word decode; binrw layout/divisor rules per index type; who-may-write and freeze facts for the memo; derives-from obligations on the lookup chain; decision table of string_to_category and compiler-evaluated Category discriminants against the game's category list"
 TRUSTED = ["rustc nightly MIR, layout and freeze facts", "pv.sym expression reconstruction", "pv/wire.py binrw model", "spec/layouts.txt (Lumina SqPack structs)"]
 
 # top-level directory of a game path -> (Category variant, id in the archive file names); SqPack category list of the game
